@@ -373,7 +373,9 @@ func (enc *Encoder) marshalList(elem schema.Type, l capnp.List) error {
 			if i > 0 {
 				enc.w.WriteString(", ")
 			}
-			enc.marshalEnum(typ, il.At(i))
+			if err := enc.marshalEnum(typ, il.At(i)); err != nil {
+				return err
+			}
 		}
 		enc.w.WriteByte(']')
 	case schema.Type_Which_interface:
